@@ -1,0 +1,17 @@
+//go:build verif
+
+// Contracts for contract-based verification (/verif). Comment-only: with or without the
+// build tag "verif" this file adds nothing to the compiled package.
+
+package agents
+
+// C03: every non-directory entry of the extensions directory, in directory order, nothing else
+//@ event DirEntryIsDir = ret io/fs.(DirEntry).IsDir when r0
+//@ event DirEntryIsFile = ret io/fs.(DirEntry).IsDir when !r0
+//@ event DirEntrySeen = ret io/fs.(DirEntry).IsDir
+//@ func isCanonical
+//@   modifies nothing
+//@ func ListExternalAgentPaths
+//@   modifies nothing
+//@   ensures [one-path-per-file] len(r0) == delta(DirEntryIsFile) && delta(DirEntrySeen) == delta(DirEntryIsFile) + delta(DirEntryIsDir)
+//@   loop range files: invariant len(agentPaths) == delta(DirEntryIsFile) && delta(DirEntrySeen) == delta(DirEntryIsFile) + delta(DirEntryIsDir) && delta(DirEntrySeen) == rangeindex + 1
